@@ -51,9 +51,18 @@ where
     DS: DatabaseSignature<OF> + Display,
     K: IndexKey,
 {
+    match_all_with(c, obs, scale, c.find_best_match(obs))
+}
+
+/// the same table of distances, with the reported entry supplied by the caller (the answer of a crate's SignatureMatcher wrapper)
+pub fn match_all_with<'a, OF, DS, K>(c: &'a FingerprintCollection<OF, DS, K>, obs: &OF, scale: fn(u32) -> f32, rep: Option<(&'a huginn_net_db::Label, &'a DS, f32)>) -> Value
+where
+    OF: ObservedFingerprint<Key = K>,
+    DS: DatabaseSignature<OF> + Display,
+    K: IndexKey,
+{
     let mut dists: Vec<i64> = vec![];
     let mut qs: Vec<i64> = vec![];
-    let rep = c.find_best_match(obs);
     let mut rep_idx: i64 = 0; // 1-based flat index, 0 = none
     let mut flat = 0i64;
     for (_l, sigs) in c.entries.iter() {
